@@ -191,6 +191,16 @@ class Unit:
                 f, name = [x.strip() for x in s[len('//@type '):].split('|')]
                 self.emit_type(gen, f, name)
                 i += 1
+            elif s.startswith('//@@ '):
+                # named clause in hand-written text: applies to the next line
+                rest = s[len('//@@ '):]
+                c = Clause(rest.split()[0], 'prelude', parse_props(rest), 'prelude')
+                gen.lines.append('// ' + s[4:])
+                gen.lines.append(tl[i + 1])
+                c.text = tl[i + 1]
+                c.gen_lines = (len(gen.lines), len(gen.lines))
+                gen.clauses.append(c)
+                i += 2
             elif s.startswith('//@calls ') or s.startswith('//@rw '):
                 gen.lines.append('// ' + s[3:])
                 i += 1
